@@ -169,14 +169,27 @@ func indexMapValuesArePositions(p *Prog, r *Reporter) {
 				// (c) value = list.Len()-1 right after list.Add(key)
 				if bo, ok := val.(*ssa.BinOp); ok && why == "" && bo.Op == token.SUB {
 					if c, isC := bo.Y.(*ssa.Const); isC && c.Value != nil && c.Int64() == 1 {
-						if lc := callOf(stripConvs(bo.X)); lc != nil && lc.Common().StaticCallee() != nil && cname(lc.Common().StaticCallee()) == "Len" {
+						// the list whose length is taken: list.Len(), or len(list.pointers) written out
+						var list ssa.Value
+						if lc := callOf(stripConvs(bo.X)); lc != nil {
+							if sc := lc.Common().StaticCallee(); sc != nil && cname(sc) == "Len" && len(lc.Call.Args) == 1 {
+								list = lc.Call.Args[0]
+							} else if bi, ok := lc.Call.Value.(*ssa.Builtin); ok && bi.Name() == "len" {
+								if u, ok := lc.Call.Args[0].(*ssa.UnOp); ok && u.Op == token.MUL {
+									if fa, ok := u.X.(*ssa.FieldAddr); ok && fieldName(fa.X.Type(), fa.Field) == "pointers" {
+										list = fa.X
+									}
+								}
+							}
+						}
+						if list != nil {
 							// an Add(key) before, in this block or a dominating one, with no other Add/RemoveAt in between in this block
 							for _, site := range callsIn(fn) {
 								sc := site.Common().StaticCallee()
 								if sc == nil || cname(sc) != "Add" || len(site.Common().Args) != 2 || site.Common().Args[1] != key {
 									continue
 								}
-								if !sameFieldAddr(site.Common().Args[0], lc.Call.Args[0]) {
+								if !sameFieldAddr(site.Common().Args[0], list) {
 									continue
 								}
 								if site.Block() == b {
@@ -363,6 +376,33 @@ func (p *Prog) targetLeaves(v ssa.Value, d int, seen map[ssa.Value]bool, out *[]
 				*out = append(*out, tLeaf{"table", apath(x)})
 				return
 			}
+			if fa, ok := x.X.(*ssa.FieldAddr); ok {
+				if al, ok := fa.X.(*ssa.Alloc); ok {
+					// a field of a local struct that holds a call's result
+					var calls []*ssa.Call
+					other := false
+					for _, ref := range *al.Referrers() {
+						if st, ok := ref.(*ssa.Store); ok && st.Addr == al {
+							if c := callOf(st.Val); c != nil {
+								calls = append(calls, c)
+							} else {
+								other = true
+							}
+						}
+					}
+					if len(calls) > 0 && !other {
+						okAll := true
+						for _, c := range calls {
+							if !p.fieldOfCallLeaves(c, fa.Field, d, seen, out) {
+								okAll = false
+							}
+						}
+						if okAll {
+							return
+						}
+					}
+				}
+			}
 			if al, ok := x.X.(*ssa.Alloc); ok {
 				k := 0
 				for _, ref := range *al.Referrers() {
@@ -380,6 +420,9 @@ func (p *Prog) targetLeaves(v ssa.Value, d int, seen map[ssa.Value]bool, out *[]
 	case *ssa.Field:
 		if fieldName(x.X.Type(), x.Field) == "RelationTarget" {
 			*out = append(*out, tLeaf{"table", apath(x)})
+			return
+		}
+		if c, ok := x.X.(*ssa.Call); ok && p.fieldOfCallLeaves(c, x.Field, d, seen, out) {
 			return
 		}
 	case *ssa.Phi:
@@ -443,6 +486,52 @@ func (p *Prog) targetLeaves(v ssa.Value, d int, seen map[ssa.Value]bool, out *[]
 		}
 	}
 	*out = append(*out, tLeaf{"other", exprString(v)})
+}
+
+// fieldOfCallLeaves: leaves of field `field` of the struct-valued result of call c: the value stored into that field at
+// each return of the callee (the zero struct is the callee's "nothing happened" answer and is skipped).
+func (p *Prog) fieldOfCallLeaves(c *ssa.Call, field int, d int, seen map[ssa.Value]bool, out *[]tLeaf) bool {
+	sc := c.Common().StaticCallee()
+	if sc == nil || sc.Blocks == nil {
+		return false
+	}
+	k := 0
+	for _, b := range sc.Blocks {
+		ret, ok := b.Instrs[len(b.Instrs)-1].(*ssa.Return)
+		if !ok || len(ret.Results) != 1 {
+			continue
+		}
+		if cz, ok := ret.Results[0].(*ssa.Const); ok && cz.Value == nil {
+			k++
+			continue
+		}
+		if u, ok := ret.Results[0].(*ssa.UnOp); ok && u.Op == token.MUL {
+			if al, ok := u.X.(*ssa.Alloc); ok {
+				stored := false
+				for _, ref := range *al.Referrers() {
+					fa, ok := ref.(*ssa.FieldAddr)
+					if !ok || fa.Field != field {
+						continue
+					}
+					for _, r2 := range *fa.Referrers() {
+						if st, ok := r2.(*ssa.Store); ok && st.Addr == fa {
+							stored = true
+							k++
+							p.targetLeaves(st.Val, d+1, seen, out)
+						}
+					}
+				}
+				if !stored {
+					k++
+					*out = append(*out, tLeaf{"zero", "a field left unset"})
+				}
+				continue
+			}
+		}
+		k++
+		*out = append(*out, tLeaf{"other", exprString(ret.Results[0])})
+	}
+	return k > 0
 }
 
 // oldTargetProvenance: every value stored into EntityEvent.OldTarget is, on every path, the relation target read from
